@@ -43,6 +43,51 @@ def check(sh, doc, db, origin, suite, parts, api=False, text=None):
                 sh.count('class.ref.actions')
 
 
+def edit_refs_and_recheck(sh, doc, rng, seed):
+    """render once, change kind / inline-ness / name / actions of references in place (same edit on a copy of the
+    abstract document), render again: every reference must again be rendered exactly once, for its NEW kind"""
+    import copy
+    from pv import apibuild
+    d2 = copy.deepcopy(doc)
+    db = apibuild.build(d2, api_inline=True)
+    try:
+        db.sql
+    except Exception:
+        return
+    order = am.ref_order(d2)
+    if len(order) != len(db.refs):
+        return
+    m2m = {(d2.tables[r.t1].schema, d2.tables[r.t1].name, d2.tables[r.t2].name) for how, i_, c_, r in order if how != 'inline' and r.kind == '<>'}
+    n = 0
+    for R, (how, idx, col, r) in zip(db.refs, order):
+        if how == 'inline' or rng.random() > 0.5:
+            continue
+        what = rng.choice(['kind', 'kind', 'inline', 'name', 'actions'])
+        if what == 'kind':
+            new = rng.choice(['>', '<', '-', '<>'])
+            key = (d2.tables[r.t1].schema, d2.tables[r.t1].name, d2.tables[r.t2].name)
+            if new == '<>' and key in m2m:
+                continue
+            if new == '<>':
+                m2m.add(key)
+            r.kind = new
+            R.type = new
+        elif what == 'inline':
+            r.api_inline = not r.api_inline
+            R.inline = r.api_inline
+        elif what == 'name':
+            r.name = None if r.name else f'renamed{n}'
+            R.name = r.name
+        else:
+            r.on_update = rng.choice([None, 'cascade', 'set null'])
+            r.on_delete = r.on_update if rng.random() < 0.5 else rng.choice([None, 'restrict'])
+            R.on_update, R.on_delete = r.on_update, r.on_delete
+        n += 1
+    if n:
+        sh.count('obs.reference_edits_before_second_render', n)
+        check(sh, d2, db, 'api', 'edited', PARTS, api=True)
+
+
 def plan(tier, seed):
     return [{'shard': i, 'of': 16} for i in range(16)]
 
@@ -78,6 +123,8 @@ def run_shard(spec, tier, seed, budget_s):
                             r.kind = '>'
                         seen.add(key)
             c03.both_origins(sh, doc, f'{seed}-{i}-{k}', suite, PARTS, fn=check, api_inline=True)
+            if k % 3 == 0 and suite == 'random':
+                edit_refs_and_recheck(sh, doc, rng, f'{seed}-{i}-{k}')
     for k2, v in reach.counts.items():
         if k2.startswith('renderer.sql') or k2.startswith('_classes.reference'):
             sh.count('reach.' + k2, v)
@@ -87,7 +134,7 @@ def run_shard(spec, tier, seed, budget_s):
 def conclusive(agg, tier):
     c = agg['counters']
     out = []
-    need = ['obs.cases.product.ref.api', 'obs.cases.product.ref.parsed', 'obs.cases.random.api', 'obs.cases.samebare.api', 'class.ref.self',
+    need = ['obs.cases.product.ref.api', 'obs.cases.product.ref.parsed', 'obs.cases.random.api', 'obs.cases.samebare.api', 'obs.cases.edited.api', 'class.ref.self',
             'class.ref.cross_schema', 'class.ref.named', 'class.ref.actions', 'obs.statements.alter_fk']
     for kind in ('>', '<', '-'):
         need += [f'class.ref.{kind}.inline.arity1', f'class.ref.{kind}.alter.arity1', f'class.ref.{kind}.alter.arity2',
